@@ -126,7 +126,7 @@ def parse_vc(path):
                     if not m:
                         raise SystemExit(f"{path}:{ln}: bad //@subst")
                     cur.subst.append((m.group(1).replace('\\"', '"'), m.group(2).replace('\\"', '"'), (m.group(3) or "#N?") + ("*" if allflag else "") + ("?" if word == "subst?" else "")))
-                elif word in ("sig", "loop", "loopstart", "closure", "before", "after", "wraptail", "armstart", "armend", "bodystart", "tryproof"):
+                elif word in ("sig", "loop", "loopstart", "loopend", "afterloop", "closure", "before", "after", "wraptail", "armstart", "armend", "bodystart", "afterstmt", "tryproof"):
                     blk = Block(word, rest, path, ln)
                     cur.blocks.append(blk)
                 else:
@@ -501,6 +501,15 @@ def emit_fn(out, entry, mode, stats, canary=False):
             if k < 1 or k > len(loops):
                 raise LostAnchor(f"{entry.id}: loop#{k} not found ({len(loops)} loops)")
             edits.append((loops[k - 1][1] + 1, loops[k - 1][1] + 1, "\n" + b.text().rstrip("\n") + "\n", vc_origin(b)))
+        # loopend k / afterloop k: ghost text at the very end of the body of the k-th loop / right behind the loop (structural anchors:
+        # they do not quote a statement, so an edit of the body cannot lose them)
+        for b in entry.block("loopend") + entry.block("afterloop"):
+            k = int(b.arg.split()[0])
+            if k < 1 or k > len(loops):
+                raise LostAnchor(f"{entry.id}: loop#{k} not found ({len(loops)} loops)")
+            close = br[loops[k - 1][1]]
+            pos = close if b.kind == "loopend" else close + 1
+            edits.append((pos, pos, "\n" + b.text().rstrip("\n") + "\n", vc_origin(b)))
         # closures
         closures = []
         for n, i in enumerate(body):
@@ -775,6 +784,49 @@ def emit_fn(out, entry, mode, stats, canary=False):
                             continue
                         edits.append((i, i + 1, f"(*{name})", dict(kind="gen", fn=entry.id, norm="N3")))
                         stats.count("N3")
+        # afterstmt k: ghost text behind the k-th top-level statement of the body (a structural anchor: it does not quote the
+        # statement). A statement ends at a top-level `;`, or at the closing brace of a top-level if / for / while / loop / match
+        # that is not continued (`else`, `;`, `.`, `?`).
+        for b in entry.block("afterstmt"):
+            k = int(b.arg.split()[0])
+            ends = []
+            lo_, hi_ = blo, last
+            m_in = re.search(r"in loop (\d+)", b.arg)
+            if m_in:
+                # the statements of the body of the j-th loop
+                j_ = int(m_in.group(1))
+                if j_ < 1 or j_ > len(loops):
+                    raise LostAnchor(f"{entry.id}: loop#{j_} not found ({len(loops)} loops)")
+                lo_, hi_ = loops[j_ - 1][1] + 1, br[loops[j_ - 1][1]]
+            i = lo_
+            last_ = hi_
+            start = None
+            while i < last_:
+                t = toks[i]
+                if t.kind in (WS, COMMENT):
+                    i += 1
+                    continue
+                if start is None:
+                    start = i
+                if t.kind == PUNCT and t.text in ("(", "[", "{"):
+                    j = br[i]
+                    if t.text == "{" and toks[start].kind == IDENT and toks[start].text in ("if", "for", "while", "loop", "match"):
+                        n_ = j + 1
+                        while n_ < last_ and toks[n_].kind in (WS, COMMENT):
+                            n_ += 1
+                        nxt = toks[n_].text if n_ < last_ else "}"
+                        if nxt not in ("else", ";", ".", "?"):
+                            ends.append(j)
+                            start = None
+                    i = j + 1
+                    continue
+                if t.kind == PUNCT and t.text == ";":
+                    ends.append(i)
+                    start = None
+                i += 1
+            if k < 1 or k > len(ends):
+                raise LostAnchor(f"{entry.id}: top-level statement #{k} not found ({len(ends)} statements)")
+            edits.append((ends[k - 1] + 1, ends[k - 1] + 1, "\n" + b.text().rstrip("\n") + "\n", vc_origin(b)))
         # bodystart: ghost declarations at the very start of the body (visible to a wraptail proof)
         for b in entry.block("bodystart"):
             edits.append((blo, blo, "\n" + b.text().rstrip("\n") + "\n", vc_origin(b)))
